@@ -54,6 +54,11 @@ class World:
             # (the small code generator can, rarely, produce text the lexer refuses: not a case for this property)
             code = b'-- cart %d\nx=%d\n' % (self.n, self.n)
             g = U.make_game(rng=rng, code=code, version=8, label=label)
+        if with_label and ext == '.p8.png':
+            # an existing .p8.png OUT carries its own picture (not the bundled blank one): written over a random 160x205 image
+            from props import C04
+            lab_path, _ = C04.make_label(self.ctx, rng, 'label_src%d.png' % self.n)
+            shutil.copy(lab_path, path)
         self.gfile.to_file(g, path)
         return path
 
@@ -81,7 +86,7 @@ def one_build(ctx, res, w, assign, out_state, out_ext, lines, expect, cases, con
     """assign: per section one of 'u' (unspecified), 'p8', 'png', 'e' (empty), 'lua' (only lua)."""
     rng = w.rng
     w.n += 1
-    out = os.path.join(ctx.tmp, 'out%d%s' % (w.n, out_ext))
+    out = os.path.join(ctx.tmp, '%s%d%s' % (rng.choice(['out', 'out', 'my.game', 'v1.2-', '.hidden', 'a.p8.b']), w.n, out_ext))
     prev = None
     if out_state == 'exists':
         src = w.new_cart(out_ext, with_label=True)
